@@ -37,8 +37,10 @@ SOURCES = {
     'lat': (gen_lat.build_rect, ['ortho-2d', 'array-own', 'array-zero',
                                  'cli-single', 'skew-2d']),
     'hex': (gen_lat.build_hex, ['regular-6', 'array-own-zero']),
+    'like': (None, ['mat-rho', 'rho-only', 'chain', 'everything']),
 }
-MODES = ['distinct', 'same-value-respelled', 'different-value', 'void-mix']
+MODES = ['distinct', 'same-value-respelled', 'different-value', 'void-mix',
+         'same-value-other-class']
 _PER = {'quick': 3, 'thorough': 150}
 
 ZERO_CLASS = [('{}.0', '{}.00'), ('{}.5', '{}.50'), ('{}.25', '{}.2500'),
@@ -62,14 +64,30 @@ def plan(tier):
     out = []
     for src, (_fn, fams) in SOURCES.items():
         for fam in fams:
-            for mode in MODES:
+            for mode in (MODES if src != 'like' else ['asis']):
                 out.append((f'{src}:{fam}:{mode}', _PER[tier]))
     return out
+
+
+class _Sub:
+    def __init__(self, case, family):
+        self.rng = case.rng
+        self.family = family
+        self.index = case.index
+        self.tier = case.tier
+        self.seed = case.seed
 
 
 def build(case):
     rng = case.rng
     src, fam, mode = case.family.split(':')
+    if src == 'like':
+        # LIKE n BUT decks keep their own materials and densities (the
+        # model cells are the resolved cards)
+        from . import c15
+        deck = c15.build(_Sub(case, fam))
+        deck.tags.add('c09.like')
+        return deck
     deck = SOURCES[src][0](rng, fam)
     mats = {m.id for m in deck.mats}
     solid = [c for c in deck.cells if int(c.mat) != 0 and c.id != 900]
@@ -111,8 +129,42 @@ def build(case):
                 b.rho = rng.choice([f'-{num}.51', f'-{num}.05', f'-{num + 1}.5',
                                     f'{num}.5e-2'])
                 deck.tags.add('rho.different')
+    elif mode == 'same-value-other-class' and len(solid) >= 2:
+        # equal values in spellings OUTSIDE the property's class (-8, -8.0,
+        # -8e0): sharing is not required, but every composition that
+        # GEOMCOMP names must be written
+        pool = list(solid)
+        rng.shuffle(pool)
+        num = rng.randint(2, 9)
+        forms = [f'-{num}', f'-{num}.0', f'-{num}e0', f'-0.{num}e1',
+                 f'-{num}0e-1', f'-{num}.0e+0']
+        rng.shuffle(forms)
+        first = pool[0]
+        for cel, form in zip(pool[:rng.randint(2, 4)], forms):
+            cel.mat = first.mat
+            cel.rho = form
+        deck.tags.add('rho.other-class')
     deck.tags.add(f'c09.{mode}')
     return deck
+
+
+def class_key(rho):
+    '''Representative of a density spelling inside the property's class:
+    trailing zeros of the fractional part dropped (one digit kept), exponent
+    marker unified.  Spellings with different keys may or may not share a
+    composition.'''
+    import re
+    match = re.match(r'^([-+]?)(\d*)(?:\.(\d*))?(?:[eEdD]?([-+]?\d+))?$',
+                     rho.strip())
+    if not match:
+        return rho
+    sign, whole, frac, exp = match.groups()
+    if frac is not None:
+        frac = frac.rstrip('0') or '0'
+    key = f"{sign}{whole}" + (f'.{frac}' if frac is not None else '')
+    if exp is not None and re.search(r'[eEdD]|\d[-+]\d', rho):
+        key += 'e' + exp
+    return key
 
 
 def run(case, ctx):
@@ -164,14 +216,15 @@ def run(case, ctx):
         if name not in comp_names:
             out.violation('undefined-composition', f'{name} (VOLU {vid}) is '
                           'not defined in COMPOSITION')
-        if parsed is not None:
-            by_value.setdefault(parsed, set()).add(name)
+        if parsed is not None and int(owner.mat) != 0:
+            by_value.setdefault((int(owner.mat), class_key(owner.rho)),
+                                set()).add(name)
     for value, names in by_value.items():
         out.counters['density_classes'] += 1
         if len(names) > 1:
-            out.violation('split-composition', f'material/density {value} is '
-                          f'spread over compositions {sorted(names)}',
-                          mech=None)
+            out.violation('split-composition', f'material/density class '
+                          f'{value} is spread over compositions '
+                          f'{sorted(names)}', mech=None)
     out.counters['volumes_judged'] += judged_vols
     out.judged += judged_vols
     out.nontrivial = judged_vols >= 3
